@@ -115,9 +115,11 @@ def gen_one(rng, P, n, fixed_pair=None, rebuild_ok=True):
     graph = rng.choice(GRAPHS)
     pubmode = rng.choice(["all", "all", "random", "none"])
     ign = 1 if pubmode == "all" and rng.random() < 0.5 else rng.randrange(2)
-    c = dict(P=P, two=two, ign=ign, mode=rng.choice([0, 1, 1, 2]), pol=rng.randrange(2), NG=NG,
+    c = dict(P=P, two=two, ign=ign, mode=rng.choice([0, 1, 1, 2, 3]), pol=rng.randrange(2), NG=NG,
              seed=(rng.randrange(1, 1 << 30) if rng.random() < 0.85 else 0))
     if rng.random() < 0.35: c["pol"] += 2               # additionally DatatypeCommunicator forward/backward
+    if rng.random() < 0.3: c["pol"] += 4                # additionally forward with Dune::CopyGatherScatter (SizeOne modes)
+    if not two and rng.random() < 0.3: c["pol"] += 8    # one index set, separate source and target containers
     z = rng.random()
     if z < 0.08: c["mode"] += 8                       # build(), free(), build()
     elif z < 0.20 and rebuild_ok: c["mode"] += 4      # build(), build()  (only while the tree survives the F-C05-1 witnesses)
@@ -153,7 +155,7 @@ def corpus_cases():
 
 # --------------------------------------------------------------------------- observations
 
-FIELD = re.compile(r"(RI|IF|SE|P\d)\[([^\]]*)\]")
+FIELD = re.compile(r"(RI|IF|SE|SD|EQ|ST|P\d)\[([^\]]*)\]")
 
 
 def parse_obs(line):
@@ -209,19 +211,24 @@ def cmp_data(spec, got, cl):
 
 
 def oracle(case, impl_line, spec_line):
-    """The property applied to what the impl did.  Returns None (accepted) or (what, reason)."""
+    """The property applied to what the impl did.  Returns the list of (what, reason) rejections (empty = accepted).
+    Observations of members outside the communication path (default Selection, Interface ==, self tests) do not stop the
+    judgement of the communication itself."""
+    side = []
+    def add_side(what, reason):
+        if what not in [w for w, _ in side]: side.append((what, reason))
     if "C05-HANG" in impl_line or impl_line.startswith("HANG"):
-        return ("hang", "a communication (or the set-up) did not return on every process")
+        return side + [("hang", "a communication (or the set-up) did not return on every process")]
     if impl_line.startswith(("CRASH", "NOT-RUN", "BADCASE")):
-        return ("crash", "no observation: " + impl_line[:160])
+        return side + [("crash", "no observation: " + impl_line[:160])]
     io, so = parse_obs(impl_line), parse_obs(spec_line)
     if io is None or so is None or len(io) != len(so):
-        return ("output", "unparseable observation: " + impl_line[:160])
+        return side + [("output", "unparseable observation: " + impl_line[:160])]
     # DatatypeCommunicator sends from and receives into user memory directly: if, with ONE container, an entry is both a
     # source and a target, the posted send and receive buffers overlap (erroneous in MPI, result order dependent): such
     # cases are outside what the unbuffered variant can promise and are not judged for phases 3/4.
     dt_overlap = False
-    if not case["two"]:
+    if not case["two"] and not (case["pol"] // 8) % 2:
         for s in so:
             snd, rcv = set(), set()
             for tok in s.get("IF", "").split(" "):
@@ -232,32 +239,46 @@ def oracle(case, impl_line, spec_line):
                 dt_overlap = True
     for p, (a, s) in enumerate(zip(io, so)):
         if "IF" not in a:
-            return ("exception", "rank %d: %s" % (p, impl_line[:160]))
+            return side + [("exception", "rank %d: %s" % (p, impl_line[:160]))]
         if a["IF"] != s["IF"]:
-            return ("interface", "rank %d: Interface::interfaces() = [%s], the definition of i^s/i^t gives [%s]" % (p, a["IF"], s["IF"]))
+            return side + [("interface", "rank %d: Interface::interfaces() = [%s], the definition of i^s/i^t gives [%s]" % (p, a["IF"], s["IF"]))]
         if a["SE"] != s["SE"]:
-            return ("selection", "rank %d: selections [%s], definition gives [%s]" % (p, a["SE"], s["SE"]))
+            return side + [("selection", "rank %d: selections [%s], definition gives [%s]" % (p, a["SE"], s["SE"]))]
+        if a.get("SD") != s.get("SD"):
+            add_side("selection-default", "rank %d: a default-constructed Selection is not empty (begin() != end())" % p)
+        if a.get("EQ") != s.get("EQ"):
+            add_side("ifaceeq", "rank %d: Interface ==/!=/<</free+build observations [%s] (same flags / exchanged flags / != negates / printing / "
+                               "rebuilt after free), equality of the interface maps gives [%s]" % (p, a.get("EQ"), s.get("EQ")))
+        if a.get("ST") != s.get("ST"):
+            add_side("selftest", "rank %d: self tests (enumset combine()/operator<< , InterfaceInformation members, RemoteIndicesStateError on "
+                                "unsynced remote indices) = [%s], expected [%s]" % (p, a.get("ST"), s.get("ST")))
         for ph in ("P3", "P4"):
             if ph in s and not dt_overlap:               # DatatypeCommunicator: containers only, copy semantics
                 x, y = a.get(ph, {}), s[ph]
                 for fld in ("D", "T"):
                     r = cmp_data(y[fld], x.get(fld, "?"), calls(y["S"]))
                     if r:
-                        return ("datatype:" + ("fwd" if ph == "P3" else "bwd"), "rank %d phase %s (DatatypeCommunicator) container %s: %s" % (p, ph, fld, r))
+                        return side + [("datatype:" + ("fwd" if ph == "P3" else "bwd"), "rank %d phase %s (DatatypeCommunicator) container %s: %s" % (p, ph, fld, r))]
+        if "P5" in s:                                    # forward with Dune::CopyGatherScatter (no log): containers only
+            x, y = a.get("P5", {}), s["P5"]
+            for fld in ("D", "T"):
+                r = cmp_data(y[fld], x.get(fld, "?"), calls(y["S"]))
+                if r:
+                    return side + [("copygatherscatter:fwd", "rank %d phase P5 (CopyGatherScatter) container %s: %s" % (p, fld, r))]
         for ph in ("P0", "P1", "P2"):
             x, y = a.get(ph, {}), s[ph]
             d = "fwd" if ph != "P1" else "bwd"
             if "S" not in x:
-                return ("delivery:" + d, "rank %d phase %s: %s" % (p, ph, x))
+                return side + [("delivery:" + d, "rank %d phase %s: %s" % (p, ph, x))]
             cx, cy = sorted(calls(x["S"])), sorted(calls(y["S"]))
             if cx != cy:
                 miss = [c for c in cy if c not in cx][:3]; extra = [c for c in cx if c not in cy][:3]
-                return ("delivery:" + d, "rank %d phase %s: scatter calls differ from the matched source entries (missing %s, unexpected %s)" % (p, ph, miss, extra))
+                return side + [("delivery:" + d, "rank %d phase %s: scatter calls differ from the matched source entries (missing %s, unexpected %s)" % (p, ph, miss, extra))]
             for fld in ("D", "T"):
                 r = cmp_data(y[fld], x.get(fld, ""), calls(x["S"]))
                 if r:
-                    return ("delivery:" + d + ":container", "rank %d phase %s container %s: %s" % (p, ph, fld, r))
-    return None
+                    return side + [("delivery:" + d + ":container", "rank %d phase %s container %s: %s" % (p, ph, fld, r))]
+    return side
 
 
 def diff_model(impl_line, model_line, spec_line):
@@ -267,7 +288,9 @@ def diff_model(impl_line, model_line, spec_line):
         return ("public", "shape")
     deep = None
     for p, (a, m, s) in enumerate(zip(io, mo, so)):
-        for k in ("IF", "SE"):
+        for k in ("IF", "SE", "SD", "EQ", "ST"):
+            if k in ("SD", "EQ", "ST") and a.get(k) != s.get(k):
+                continue                                  # already rejected by the oracle
             if a.get(k) != m.get(k):
                 return ("public", "rank %d %s: impl [%s] model [%s]" % (p, k, a.get(k), m.get(k)))
         if a.get("RI") != m.get("RI"):
@@ -306,8 +329,11 @@ def features(c, spec_line):
     f.add("two-sets" if c["two"] else "one-set")
     f.add("mode%d" % (c["mode"] % 4))
     f.add("add" if c["pol"] % 2 else "copy")
-    if c["pol"] // 2: f.add("datatype-communicator")
-    if c["pol"] // 2 and not c["two"]:
+    if (c["pol"] // 2) % 2: f.add("datatype-communicator")
+    if (c["pol"] // 4) % 2 and c["mode"] % 4 != 1: f.add("CopyGatherScatter")
+    if (c["pol"] // 8) % 2: f.add("one-set-separate-containers")
+    if c["mode"] % 4 == 3: f.add("16-byte-elements")
+    if (c["pol"] // 2) % 2 and not c["two"] and not (c["pol"] // 8) % 2:
         for s_ in so:
             snd, rcv = set(), set()
             for tok in s_.get("IF", "").split(" "):
@@ -375,8 +401,8 @@ def shrink(ctx, model, impl, c, what, budget=40):
                          max_restarts=0, env={"C05_CASE_TIMEOUT": "8", "OMPI_MCA_rmaps_base_oversubscribe": "1"})
         if " || " not in mo[0]:
             return False
-        r = oracle(parse_case(line), io[0], mo[0].split(" || ", 1)[1].replace(" ORDER-DEPENDENT", ""))
-        return r is not None and r[0] == what
+        rs = oracle(parse_case(line), io[0], mo[0].split(" || ", 1)[1].replace(" ORDER-DEPENDENT", ""))
+        return any(r[0] == what for r in rs)
     def variants(cur):
         if cur["seed"]:
             v = copy.deepcopy(cur); v["seed"] = 0; yield v
@@ -423,7 +449,7 @@ def run(ctx):
         for l, m in zip(wit[:2], mo1):
             res, _ = run_impl(ctx, impl, parse_case(l)["P"], [l], "wit", 20)
             pre[l] = res[0]
-            if " || " not in m or oracle(parse_case(l), res[0], m.split(" || ", 1)[1]) is not None:
+            if " || " not in m or any(r[0] in ("crash", "hang", "output") or r[0].startswith("delivery") for r in oracle(parse_case(l), res[0], m.split(" || ", 1)[1])):
                 rebuild_ok = False
         ctx.log("F-C05-1 witnesses: tree %s a second build() without free()" % ("survives" if rebuild_ok else "FAILS after"))
     for l in corp:
@@ -432,7 +458,7 @@ def run(ctx):
         pcs.append(parse_case(l)); lines.append(l)
     # every ordered pair of flag-set types at least once, then random pairs
     pairs = [(a, b) for a in range(NFS) for b in range(NFS)]
-    N = 2500 if quick else 20000
+    N = 1800 if quick else 20000
     for n in range(N):
         P = [1, 2, 2, 3, 3, 4, 4, 4, 5, 6][n % (8 if quick else 10)]
         P = min(P, NP)
@@ -483,13 +509,14 @@ def run(ctx):
                     nsan += 1
                     m = mo[i]
                     if " || " not in m: continue
-                    r = oracle(pcs[i], l, m.split(" || ", 1)[1].replace(" ORDER-DEPENDENT", ""))
-                    if r is not None:
+                    for r in oracle(pcs[i], l, m.split(" || ", 1)[1].replace(" ORDER-DEPENDENT", "")):
+                        if r[0] in ("selection-default", "ifaceeq"): continue       # build-independent observations, reported by the main stream
                         ctx.violation(sig_of(pcs[i], r[0]) + ":sanitizer", {"case": lines[i], "impl": io[i], "impl_sanitized_build": l, "oracle": r[1]})
         except V.BuildError as e:
             ctx.notes.append("sanitizer build failed: %s" % str(e)[-300:])
     nviol = ndis = ndrift = nperm = 0
     shrunk = False
+    per_what = {}
     feats, dist = {}, {"P": {}, "flagpairs": set(), "graph": {}, "pub": {}}
     nontrivial = set()
     for i, (c, line, a, m) in enumerate(zip(pcs, lines, io, mo)):
@@ -507,10 +534,12 @@ def run(ctx):
             spec = spec.replace(" ORDER-DEPENDENT", "")
         for f in features(c, spec): feats[f] = feats.get(f, 0) + 1
         if re.search(r"S:\d", spec): nontrivial.add(line)
-        r = oracle(c, a, spec)
-        if r is not None:
+        rs = oracle(c, a, spec)
+        SIDE = ("selection-default", "ifaceeq", "selftest")
+        for r in rs:
             nviol += 1
-            if nviol <= 40:
+            per_what[r[0]] = per_what.get(r[0], 0) + 1
+            if per_what[r[0]] <= (6 if r[0] in SIDE else 40):
                 small = None
                 if not shrunk and r[0] not in ("hang", "crash", "output", "exception"):
                     shrunk = True
@@ -522,6 +551,7 @@ def run(ctx):
                 ctx.violation(sig_of(c, r[0]), {"case": line, "parsed": {k: v for k, v in c.items() if not k.startswith("_")}, "impl": a, "model": mm, "spec": spec,
                                                 "oracle": r[1], "replay_cmd": "bin/check C05 --replay <this file>",
                                                 **({"case_original": line, "case": small, "minimised": True} if small else {})})
+        if any(r[0] not in SIDE for r in rs):
             continue
         ia, im = parse_obs(a), parse_obs(mm)
         if any(x[ph]["S"] != y[ph]["S"] for x, y in zip(ia, im) for ph in ("P0", "P1", "P2")):
@@ -549,7 +579,7 @@ def run(ctx):
         "samples": lines[:2] + lines[len(lines) // 2: len(lines) // 2 + 1] + lines[-1:],
         "distribution": {"P": dist["P"], "graph": dist["graph"], "public": dist["pub"], "flag_pairs_covered": len(dist["flagpairs"]), "flag_pairs_total": NFS * NFS},
         "features_hit": feats,
-        "impl_model_disagreements": ndis, "oracle_rejections": nviol, "deep_stream_drift": ndrift,
+        "impl_model_disagreements": ndis, "oracle_rejections": nviol, "oracle_rejections_by_kind": per_what, "deep_stream_drift": ndrift,
         "pmpi_shim": {"perturbed_sweeps": shim[0], "calls_reporting_out_of_index_order": shim[1], "delays": shim[2],
                       "cases_with_receives_completed_out_of_process_order": nperm},
         "traces_validated_against_impl": sum(1 for a in io if a and a.startswith("r0 ")),
@@ -572,6 +602,9 @@ def replay(ctx, path):
     mo = V.run_cases(ctx, [model], [line], tag="rmodel")
     mm, _, spec = mo[0].partition(" || ")
     print("case  :", line); print("impl  :", io[0]); print("model :", mm); print("spec  :", spec)
-    r = oracle(c, io[0], spec.replace(" ORDER-DEPENDENT", ""))
-    print("oracle:", ("REJECTS (%s): %s" % r) if r else "accepts")
-    return 1 if r else 0
+    rs = oracle(c, io[0], spec.replace(" ORDER-DEPENDENT", ""))
+    for r in rs:
+        print("oracle: REJECTS (%s): %s" % r)
+    if not rs:
+        print("oracle: accepts")
+    return 1 if rs else 0
